@@ -681,6 +681,9 @@ pub fn make_host(tag: &str, mask: u32) -> V {
     if mask & (1 << 19) != 0 {
         meta.push(("@==".into(), host_native("==")));
     }
+    if mask & (1 << 24) != 0 {
+        meta.push(("@<=".into(), host_native("<=")));
+    }
     if mask & (1 << 20) != 0 {
         meta.push(("@negate".into(), host_native("negate")));
     }
@@ -748,6 +751,10 @@ pub fn host_op(ip: Rc<Interp>, name: &str, me: V, args: Vec<V>) -> Fut {
             "<" | "==" => {
                 emit(vec![V::str(&format!("host@{key}")), V::str(&tag), arg0.unwrap_or(V::Null)])?;
                 Ok(V::Bool(false))
+            }
+            "<=" => {
+                emit(vec![V::str("host@<="), V::str(&tag), arg0.unwrap_or(V::Null)])?;
+                Ok(V::Bool(true))
             }
             "negate" => {
                 emit(vec![V::str("host@negate"), V::str(&tag)])?;
